@@ -14,6 +14,14 @@
     cache.openv  <hash> <body> <chunk> x<r> x<q> <fault> x<head> <len> x<H(file[3d:])> P
                                                                      → OK x<P> | OK RERR | ERR
     cache.incrash <hash> x<state> x<r> x<q> x<body> x<H(body)>       → 1 | 0
+    cache.fault  x<r> x<q> x<deflated> x<disk> x<H(disk[3d:])> <werr> <cerr> → 1 | 0
+    cache.faultcreate <d> x<disk>                                    → 1 | 0
+
+  `cache.fault`: is the observation (bytes on disk after `Close`, did a `Write` / did `Close` return
+  an error) an outcome of the fault model `runSession` (Gts/Model/CacheFault.lean) for a session
+  whose `CreateLevel` works, whose one `Write` works or fails, and whose `Close` flush works or fails
+  (the other steps of `Close` work)?  The number of stream bytes on disk at the fault is determined
+  by the length of the file.  `cache.faultcreate`: is `disk` what a failed placeholder write leaves?
 
   `<hash>`, `<body>`, `<chunk>`, `<fault>` tell the Go side how to (re)build the real file; the
   model ignores them.  `P` is what an independent inflate of `file[3d:]` gives (`x<bytes>`, for
@@ -22,6 +30,7 @@
 -/
 import Gts.Model.Sexp
 import Gts.Model.CacheFile
+import Gts.Model.CacheFault
 namespace Gts
 open Gts.Cache
 
@@ -57,6 +66,27 @@ def evalCache (op : String) (args : List Sexp) : Option String :=
       let s ← decBytes? s
       pure (boolStr' ((crashStates (fun _ => b) b.length (← decBytes? r) (← decBytes? q)
         (← decBytes? body)).elem s))
+  | "cache.fault", [r, q, z, disk, b, werr, cerr] => do
+      let b ← decBytes? b
+      let z ← decBytes? z
+      let disk ← decBytes? disk
+      let r ← decBytes? r
+      let q ← decBytes? q
+      let werr := (← decInt? werr) == 1
+      let cerr := (← decInt? cerr) == 1
+      let d := b.length
+      let k := disk.length - 3 * d
+      let cands : List Session :=
+        if werr then [{ writes := [([], some k)] }]
+        else [{ writes := [([], none)] }, { writes := [([], none)], close := { flush := some k } }]
+      pure (boolStr' (cands.any fun s =>
+        let o := runSession (fun _ => b) d (fun _ => z) r q s
+        o.disk == disk && o.createErr.isNone && (o.writeErrs.any (·.isSome) == werr)
+          && (o.closeErr.isSome == cerr)))
+  | "cache.faultcreate", [d, disk] => do
+      let d := (← decInt? d).toNat
+      let disk ← decBytes? disk
+      pure (boolStr' ((List.range (3 * d)).any fun k => (createF d [] [] (some k)).1.data == disk))
   | _, _ => none
 where
   boolStr' (b : Bool) : String := if b then "1" else "0"
